@@ -522,8 +522,8 @@ def run(prop, tier):
             sc, tr = byname[name]
             path = vlib.write_replay(prop, name + "--" + f, {
                 "property": prop, "formula": f, "scenario": name, "tier": tier, "seed": sd,
-                "where": where + (" (power loss before trace line %d of the scenario)" % line if where == "powerloss"
-                                  else " (trace line %d)" % line),
+                "where": where + (" (power loss before event trace[%d] of this scenario)" % line if where == "powerloss"
+                                  else " (after event trace[%d] of this scenario)" % line),
                 "how_to_replay": "VERIF_ONLY='%s' VERIF_SEED=%d bin/check %s %s" % (name, sd, prop, tier),
                 "script": [{k: v for k, v in s.items() if k != "key_b64"} for s in sc["steps"]],
                 "trace": tr})
